@@ -157,9 +157,12 @@ class NotPolynomial(Exception):
     pass
 
 
-def from_ast(node, atoms, env=None):
+def from_ast(node, atoms, env=None, auto=False):
     """Convert an arithmetic expression to a Rat.  atoms: {source text:
-    symbol name}; env: {local name: Rat} for previously converted locals."""
+    symbol name}; env: {local name: Rat} for previously converted locals.
+    auto: any other name / attribute / subscript / call becomes a fresh
+    symbol named by its source text (so an unexpected quantity shows up as
+    a residual in the identity instead of aborting the analysis)."""
     env = env or {}
 
     def rec(n):
@@ -190,5 +193,8 @@ def from_ast(node, atoms, env=None):
                 return l * r
             if isinstance(n.op, ast.Div):
                 return l / r
+        if auto and isinstance(n, (ast.Name, ast.Attribute, ast.Subscript,
+                                   ast.Call)):
+            return Rat.sym('<%s>' % s)
         raise NotPolynomial(s)
     return rec(node)
